@@ -252,7 +252,16 @@ def chk_ber_forms(T, v, M, limit=60):
     want = x690.norm(T, v)
     spec = bridge.to_type(T)
     try:
-        forms = list(x690.ber_forms(T, v, limit=limit, with_deviations=True))
+        # every single deviation from the canonical choice, then systematic combinations, then random mixes
+        forms = [(e, ['%s:%s' % (l, a)]) for l, a, e in x690.single_deviations(T, v)]
+        seen = {e for e, d in forms}
+        import random as _r
+        extra = list(x690.ber_forms(T, v, limit=limit // 2, with_deviations=True)) + \
+            list(x690.ber_forms(T, v, limit=limit // 2, rng=_r.Random(len(repr(v))), with_deviations=True))
+        for e, d in extra:
+            if e not in seen:
+                seen.add(e)
+                forms.append((e, d))
     except ValueError:
         return [], 0
     for e, devs in forms:
@@ -276,6 +285,7 @@ def chk_tails(T, v, M):
     want = x690.norm(T, v)
     spec = bridge.to_type(T)
     val = bridge.to_value(T, v, spec)
+    selfdesc = bool(U.self_describing([(T, v)]))
     for ename, enc, mode in (('DER', de, {}), ('CER', ce, {}), ('BER-indef', be, dict(defMode=False)),
                              ('BER-chunk', be, dict(maxChunkSize=2))):
         try:
@@ -294,6 +304,19 @@ def chk_tails(T, v, M):
             if got != want or rest != tail:
                 out.append(fail('tails', T, v, 'value or remainder differs', enc=e, tail=tail, rest=rest,
                                 codec=ename, got=repr(got)))
+        if selfdesc:
+            # without a guiding type: the remainder must be preserved just the same
+            for tail in (b'', b'\x00\x00', e):
+                n += 1
+                try:
+                    r, rest = bd.decode(e + tail)
+                except Exception as ex:
+                    out.append(fail('tails', T, v, 'schemaless %s: %s' % (type(ex).__name__, str(ex)[:200]), enc=e,
+                                    tail=tail, codec=ename))
+                    continue
+                if rest != tail:
+                    out.append(fail('tails', T, v, 'schemaless: remainder differs', enc=e, tail=tail, rest=rest,
+                                    codec=ename))
     return out, n
 
 
